@@ -131,3 +131,68 @@ def run_g3(repo, task):
                 samples=[dict(site=i['name'], verdict=i['verdict']) for i in items[:3]],
                 trusted=['pyvc/ownership.py tracks aliases of self._columns / self._blocks through local names only (not through containers or helper calls)'],
                 assumptions=[], wall_s=round(time.time() - t0, 2))
+
+
+def run_store_coherence(repo, task):
+    """C17 site obligations read off the AST (G6): every public reading method (`read`, `read_many`, `labels`) of every Store class is
+    wrapped by `store_coherent_non_write`, every `write` by `store_coherent_write`; the non-write wrapper calls
+    `self._mtime_coherent()` before the wrapped function, the write wrapper calls `self._mtime_update()` after it;
+    `Store.__init__` records the modification time.  (`_mtime_coherent` itself is under a proved contract.)"""
+    import ast
+    t0 = time.time()
+    items, failures = [], []
+
+    def ob(name, ok, note, fn):
+        items.append(dict(name=name, fn=fn, kind='G6', verdict='proved' if ok else 'refuted', backend='ast', ms=0.0, note=note))
+        if not ok:
+            failures.append(dict(key=f'G:{name}', what=f'{name}: {note}', nofail=True, replay=dict(site=name, note=note)))
+    core = os.path.join(repo, 'static_frame/core')
+    store = ast.parse(open(os.path.join(core, 'store.py')).read())
+    fns = {n.name: n for n in store.body if isinstance(n, ast.FunctionDef)}
+
+    def wrapper_calls(deco, method, before):
+        d = fns.get(deco)
+        if d is None:
+            return False, f'{deco} not found'
+        w = next((n for n in d.body if isinstance(n, ast.FunctionDef)), None)
+        if w is None:
+            return False, 'no wrapper function'
+        pos_m = pos_f = None
+        for i, s in enumerate(w.body):
+            for c in ast.walk(s):
+                if isinstance(c, ast.Call):
+                    if isinstance(c.func, ast.Attribute) and c.func.attr == method and isinstance(c.func.value, ast.Name) and c.func.value.id == 'self' and pos_m is None:
+                        pos_m = i
+                    if isinstance(c.func, ast.Name) and c.func.id == 'f' and pos_f is None:
+                        pos_f = i
+        ok = pos_m is not None and pos_f is not None and (pos_m < pos_f if before else pos_m > pos_f)
+        # the call must be unconditional: a top-level expression statement of the wrapper
+        ok = ok and isinstance(w.body[pos_m], ast.Expr)
+        return ok, f'self.{method}() at statement {pos_m}, f(...) at statement {pos_f} of the wrapper'
+    ok, note = wrapper_calls('store_coherent_non_write', '_mtime_coherent', True)
+    ob('store.py:store_coherent_non_write:checks-before-reading', ok, note, 'store.py:store_coherent_non_write')
+    ok, note = wrapper_calls('store_coherent_write', '_mtime_update', False)
+    ob('store.py:store_coherent_write:records-after-writing', ok, note, 'store.py:store_coherent_write')
+    scls = next((n for n in store.body if isinstance(n, ast.ClassDef) and n.name == 'Store'), None)
+    init = next((n for n in scls.body if isinstance(n, ast.FunctionDef) and n.name == '__init__'), None) if scls else None
+    ok = init is not None and any(isinstance(c, ast.Call) and isinstance(c.func, ast.Attribute) and c.func.attr == '_mtime_update' for c in ast.walk(init))
+    ob('store.py:Store.__init__:records-mtime', ok, 'Store.__init__ calls self._mtime_update()', 'store.py:Store.__init__')
+    n_methods = 0
+    for mod in sorted(f for f in os.listdir(core) if f.startswith('store') and f.endswith('.py') and f not in ('store_filter.py', 'store_client_mixin.py')):
+        tree = ast.parse(open(os.path.join(core, mod)).read())
+        for cls in [n for n in ast.walk(tree) if isinstance(n, ast.ClassDef)]:
+            for fn in [n for n in cls.body if isinstance(n, ast.FunctionDef)]:
+                want = {'read': 'store_coherent_non_write', 'read_many': 'store_coherent_non_write', 'labels': 'store_coherent_non_write',
+                        'write': 'store_coherent_write'}.get(fn.name)
+                if want is None:
+                    continue
+                if any(isinstance(s, ast.Raise) for s in fn.body[-1:]) and len([s for s in fn.body if not (isinstance(s, ast.Expr) and isinstance(s.value, ast.Constant))]) == 1:
+                    continue      # abstract stub: raises NotImplementedError
+                decos = [ast.unparse(d) for d in fn.decorator_list]
+                n_methods += 1
+                ob(f'{mod}:{cls.name}.{fn.name}:wrapped-by-{want}', want in decos, f'decorators: {decos}', f'{mod}:{cls.name}.{fn.name}')
+    rep = dict(name=task['name'], status='ok' if n_methods >= 8 else 'checker-fault', items=items, failures=failures, evaluations=0, distinct=0, rule='',
+               samples=[dict(obligation=i['name'], verdict=i['verdict']) for i in items[:3]], trusted=[], assumptions=[], wall_s=round(time.time() - t0, 2))
+    if n_methods < 8:
+        rep['detail'] = f'only {n_methods} store methods found: the generator no longer matches the source layout'
+    return rep
